@@ -63,3 +63,12 @@ pub use local::LocalStorage;
 pub use memory::MemoryStorage;
 pub(crate) use pending::PendingInvalidation;
 pub use port::Storage;
+
+// Verification hook: harness code lives outside the repository and is only compiled by the
+// model checker (`cfg(kani)`) or by native counterexample replays (`--cfg folo_verif`).
+#[cfg(any(kani, folo_verif))]
+#[doc(hidden)]
+#[allow(warnings, clippy::all, clippy::pedantic, clippy::nursery, clippy::restriction)]
+pub mod folo_verif {
+    include!(concat!(env!("FOLO_VERIF_DIR"), "/kani/cbh_storage/harness.rs"));
+}
